@@ -163,7 +163,45 @@ class SymExec:
                 if is_null_const(y) or const_val(y) == 0:
                     k, p = self.canon(x)
                     return k, (p if e['op'] == '!=' else not p)
+        if e.get('k') == 'ref' and e.get('dk') == 'local':
+            al = self.flag_aliases().get(e['d'])
+            if al is not None:
+                return self.canon(al)       # cJSON_bool format = p->format; ... if (format): the same condition
         return 'nz:' + expr_str(e), True
+
+    def flag_aliases(self):
+        """integer locals whose every non-constant definition is the same field of the print buffer that this function never stores to"""
+        if getattr(self, '_flag_aliases', None) is not None:
+            return self._flag_aliases
+        defs = {}
+        for d_ in self.fn.locals():
+            if 'init' in d_ and self.u.ty(d_['ty'])['c'] in ('int', 'bool'):
+                defs.setdefault(d_['d'], []).append(d_['init'])
+        stored = set()
+        for a_ in self.fn.nodes():
+            if a_.get('k') == 'bin' and a_.get('op') in ASSIGN_OPS:
+                l_ = strip_casts(a_['l'])
+                if l_.get('k') == 'ref' and l_['d'] in defs or (l_.get('k') == 'ref' and self.u.ty(l_.get('ty0', l_['ty']))['c'] in ('int', 'bool')):
+                    defs.setdefault(l_['d'], []).append(a_['r'] if a_['op'] == '=' else None)
+                elif l_.get('k') == 'mem':
+                    stored.add(l_['f'])
+            elif a_.get('k') == 'un' and a_.get('op') in ('pre++', 'pre--', 'post++', 'post--'):
+                t_ = strip_casts(a_['e'])
+                if t_.get('k') == 'ref':
+                    defs.setdefault(t_['d'], []).append(None)
+                elif t_.get('k') == 'mem':
+                    stored.add(t_['f'])
+        out = {}
+        for d_, rs_ in defs.items():
+            real = [r_ for r_ in rs_ if r_ is None or const_val(r_) is None]
+            if not real or any(r_ is None for r_ in real):
+                continue
+            ms = [strip_casts(r_) for r_ in real]
+            if all(m_.get('k') == 'mem' and m_.get('arrow') and m_['f'] not in stored and is_ref(m_['b']) and
+                   strip_casts(m_['b']).get('d') == self.pbd for m_ in ms) and len({expr_str(m_) for m_ in ms}) == 1 and ms[0]['f'] == 'format':
+                out[d_] = ms[0]
+        self._flag_aliases = out
+        return out
 
     def atom_truth(self, e, st):
         k, p = self.canon(e)
